@@ -127,7 +127,7 @@ func (w *World) startConsumer(n *Node) {
 }
 
 func init() {
-	mkNotify := func(devs Dev) func() *Scenario {
+	mkNotify := func(devs Dev, back bool) func() *Scenario {
 		return func() *Scenario {
 			return &Scenario{Nodes: voters(3), NotifyCh: true, Devs: devs, Horizon: 500, AutoRestart: true,
 				Goal: func(w *World) bool { return w.scriptDone() && w.callsDone() && w.converged() && w.consumersIdle() },
@@ -138,12 +138,19 @@ func init() {
 						l := w.stableLeader()
 						return l != nil && l.id != w.vals["old"]
 					}, func(w *World) { w.isolate(w.vals["old"], false) }),
-					stepDo("transfer", whenSettled, func(w *World) { w.transfer(w.leader(), -1) }),
+					stepDo("transfer", whenSettled, func(w *World) {
+						if back { // hand leadership back to the server that lost it: it gains it a second time
+							w.transfer(w.leader(), w.vals["old"])
+						} else {
+							w.transfer(w.leader(), -1)
+						}
+					}),
 					stepApplyLeader("apply2"),
 				}}
 		}
 	}
-	regScenario("notify3", mkNotify(DevAllNet|DevTimer|DevCrash|DevStepEarly|DevRestart))
+	regScenario("notify3", mkNotify(DevAllNet|DevTimer|DevCrash|DevStepEarly|DevRestart, false))
+	regScenario("notify3-back", mkNotify(DevAllNet|DevTimer|DevCrash|DevStepEarly|DevRestart, true))
 }
 
 func (w *World) consumersIdle() bool {
@@ -191,6 +198,19 @@ func (m *Monitors) notifyChecks() {
 			if len(nc.reads) != tr {
 				m.fail("C18", "notify-count", "n%d.%d had %d leadership gains/losses but NotifyCh delivered %d messages (%v)", nc.node, nc.inc, tr, len(nc.reads), nc.reads)
 			}
+		}
+	}
+	// LeaderCh, which nobody reads here (the slowest possible consumer), always holds the most recent transition
+	for _, n := range w.nodes {
+		if !n.up || n.r == nil || !n.booted || !m.mainLoopParked(n) {
+			continue
+		}
+		if m.transitions[[2]int{n.id, n.inc}] == 0 {
+			continue
+		}
+		isLeader := n.r.State() == raft.Leader
+		if v, ok := n.r.VerifLeaderChPeek(); !ok || v != isLeader {
+			m.fail("C18", "leaderch-not-latest", "n%d.%d is at rest, leader=%v, after %d transitions; LeaderCh (never read) holds value=%v present=%v", n.id, n.inc, isLeader, m.transitions[[2]int{n.id, n.inc}], v, ok)
 		}
 	}
 	// a follower names only a server that really was leader of the follower's current term
